@@ -57,6 +57,7 @@ func isReadOnly(c internal.Command) bool {
 // (value, type, order, membership, scores) and the number of keys exactly as they were.
 func c13Module(module string, preferKind int) {
 	gConcreteScores = true
+	gNoHistory = true // (purity does not depend on how the pre-state came about; the variants would only multiply the paths)
 	if module == constants.StringModule {
 		gByteStrings = 2
 	}
@@ -83,7 +84,7 @@ func c13Module(module string, preferKind int) {
 	}
 	maxE, p2kinds := 1, 2
 	if vr.Tier() > 0 {
-		p2kinds = 3
+		// (the second key holds nothing or the module's own type; every other type is tried on the first)
 		// two elements per collection where that finishes inside the thorough budget (the sorted-set
 		// module with two members per set ran 25 min without covering the bound; printing a
 		// two-field hash with symbolic field names needs an ordering the engine does not model)
@@ -303,3 +304,54 @@ func verifLMoveNoAlias(tag string) {
 
 func Verif_C13_LMoveNoAlias() { verifLMoveNoAlias("C13") }
 func Verif_C15_LMoveNoAlias() { verifLMoveNoAlias("C15") }
+
+// Verif_C13_FailedNumericUpdateChangesNothing: the counter commands with an arbitrary 64-bit operand
+// (also the extreme values) on a hash with a present or an absent field, or on a string / integer key:
+// whenever the command replies with an error - overflow, not a number, wrong type - the key is
+// exactly as before: no field was created on the way, no value half-updated.
+func Verif_C13_FailedNumericUpdateChangesNothing() {
+	s := verifServer()
+	k := vr.Tok("k")
+	delta := vr.Int("delta")
+	which := vr.Choose("cmd", 5)
+	if which < 2 {
+		p := c14Preset(s, k, "h", 2)
+		f := vr.Tok("f")
+		var err error
+		var panicked bool
+		if which == 0 {
+			_, err, panicked = verifRun(s, "HINCRBY", k, f, strconv.Itoa(delta))
+		} else {
+			_, err, panicked = verifRun(s, "HINCRBYFLOAT", k, f, strconv.Itoa(delta))
+		}
+		vr.Assert(!panicked, "C13.failed_numeric.nopanic")
+		if !panicked && err != nil {
+			c14Holds(s, k, p, "C13.failed_numeric.error_reply_means_nothing_changed")
+		}
+		vr.Reach("end")
+		return
+	}
+	pre := gVal{kind: gAbsent}
+	switch vr.Choose("pre", 3) {
+	case 1:
+		pre = gSym("p", gInt, 1)
+	case 2:
+		pre = gSym("p", gStr, 1)
+	}
+	gStoreIn(s, 0, k, pre)
+	var err error
+	var panicked bool
+	switch which {
+	case 2:
+		_, err, panicked = verifRun(s, "INCRBY", k, strconv.Itoa(delta))
+	case 3:
+		_, err, panicked = verifRun(s, "DECRBY", k, strconv.Itoa(delta))
+	case 4:
+		_, err, panicked = verifRun(s, "INCRBYFLOAT", k, strconv.Itoa(delta))
+	}
+	vr.Assert(!panicked, "C13.failed_numeric.nopanic")
+	if !panicked && err != nil {
+		vr.Assert(gHolds(s, k, pre), "C13.failed_numeric.error_reply_means_nothing_changed")
+	}
+	vr.Reach("end")
+}
